@@ -243,6 +243,22 @@ PROPS = {
         assumptions=[],
         timeout={"quick": 1500, "thorough": 20000},
     ),
+    "C13": dict(
+        lean=["Upf.Props.C13"],
+        level="proof",
+        claim="For every monotone time-stamped report sequence over any number of sessions and every interval: a first report passes; after a forwarded notification "
+              "every later forwarded one for the same F-SEID is >= interval later; inside the interval a report is suppressed and changes nothing. For every stored "
+              "session: the report carries the CP's SEID and the FIRST downlink PDR, and none is sent when that PDR's FAR lacks the notify bit or there is no "
+              "downlink PDR. T1: the 20 s interval constant. T2: the notifier with 30-80 ms intervals under recorded call windows (decisions must be consistent "
+              "with SOME instant in each window), and the full path BESS notify socket -> agent -> Session Report Request at the peer.",
+        note="Trusted: Lean kernel + standard axioms, a monotone clock (time.Now / time.Since), sync.Map; one association (multi-association routing is documented as "
+             "unimplemented); the real 20 s interval is only exercised as 'repeats inside it are suppressed' in quick. The UP4 digest path shares notifier and "
+             "handleDigestReport; its transport is covered with C04.",
+        rule="4 notifier runs x 500 calls over 6 F-SEIDs with sleeps around the interval boundary; 20 sessions (6 FAR action classes incl. notify / buffer-only / "
+             "forward / drop, no downlink PDR, dangling FAR) x first report, repeats, unknown session, deleted session; non-trivial = a forwarded notification",
+        trusted_base=[GO_LIBS, "OS clock", "unixpacket socket", "go-pfcp codecs"],
+        assumptions=["monotone clock", "one association"],
+    ),
 }
 
 NOT_APPLICABLE = {}
